@@ -678,7 +678,7 @@ def f_softmax(I, t, dim=-1, **k):
     I.ex.assume(z3.ForAll([iv], weight(iv)))
     I.ex.assume(z3.ForAll([iv], wstep(iv)))
     I.ex.assume(z3.ForAll([iv], total_if_finite_at(iv)))
-    I.ex.ghost.setdefault("softmaxes", []).append({"A": A, "W": W, "weight": weight, "wstep": wstep, "total_if_finite_at": total_if_finite_at, "n": n, "ninf": ninf})
+    I.ex.ghost.setdefault("softmaxes", []).append({"A": A, "W": W, "weight": weight, "wstep": wstep, "total_if_finite_at": total_if_finite_at, "n": n, "ninf": ninf, "score": lambda i: te(i)})
     return ST(t.shape, lambda i: A(to_z3(i)), "float")
 
 
